@@ -866,6 +866,42 @@ func (c *specCtx) call(x *ast.CallExpr) specVal {
 	case "hasprefix":
 		a, b := c.eval(args[0]), c.eval(args[1])
 		return specVal{term: fmt.Sprintf("(sprefix %s %s)", a.term, b.term), typ: tBool}
+	case "rdoff", "rdlen":
+		// the window of the underlying file that a bounded reader hands out: io.LimitedReader over a
+		// positioned *os.File, or io.SectionReader
+		v := c.eval(args[0])
+		pt, ok := v.typ.Underlying().(*types.Pointer)
+		if !ok {
+			fail("%s: not a pointer to a reader", name)
+		}
+		switch typeKey(pt.Elem()) {
+		case "io.LimitedReader":
+			st := pt.Elem().Underlying().(*types.Struct)
+			if name == "rdlen" {
+				for i := 0; i < st.NumFields(); i++ {
+					if st.Field(i).Name() == "N" {
+						sv, _ := vc.fieldSV(pt.Elem(), i)
+						return specVal{term: fmt.Sprintf("(select %s %s)", vc.get(c.st, sv), v.term), typ: tInt}
+					}
+				}
+			}
+			for i := 0; i < st.NumFields(); i++ {
+				if st.Field(i).Name() == "R" {
+					sv, _ := vc.fieldSV(pt.Elem(), i)
+					vc.svDeclare("G_filepos", "(Array Int Int)")
+					return specVal{term: fmt.Sprintf("(select %s (if_val (select %s %s)))", vc.get(c.st, "G_filepos"), vc.get(c.st, sv), v.term), typ: tInt}
+				}
+			}
+		case "io.SectionReader":
+			vc.declareOnceRaw("sr_off", "(declare-fun sr_off (Int) Int)")
+			vc.declareOnceRaw("sr_len", "(declare-fun sr_len (Int) Int)")
+			f := "sr_off"
+			if name == "rdlen" {
+				f = "sr_len"
+			}
+			return specVal{term: fmt.Sprintf("(%s %s)", f, v.term), typ: tInt}
+		}
+		fail("%s: unsupported reader type %s", name, typeKey(pt.Elem()))
 	case "contains":
 		a, b := c.eval(args[0]), c.eval(args[1])
 		return specVal{term: fmt.Sprintf("(scontains %s %s)", a.term, b.term), typ: tBool}
